@@ -31,7 +31,7 @@ def setup(ctx):
 
 def _plan(tier, seed):
     if tier == "quick":
-        return [{"n_cases": 260, "mode": "A", "hashseed": i % 3} for i in range(8)]
+        return [{"n_cases": 200, "mode": "A", "hashseed": i % 3} for i in range(8)]
     return [{"n_cases": 4000, "mode": "A", "hashseed": i % 4} for i in range(14)]
 
 def plan(tier, seed):
@@ -109,7 +109,18 @@ def check_case(case, ctx):
         return
     kinds = set()
     prev_mut = False
+    derived = []          # (step, kind, Dataset object, its state when it was derived)
     for step, op in enumerate(case["ops"]):
+        # datasets derived earlier (unified / projected) must not be affected by what happens to their source afterwards
+        for d_step, d_kind, d_obj, d_state in derived:
+            probs_d = common.dataset_problems(d_obj)
+            if probs_d or real_state(d_obj) != d_state:
+                what = probs_d[0][1] if probs_d else f"its rankings changed to {real_state(d_obj)}"
+                ctx.violation(f"C16/derived-dataset-affected-by-later-operations-on-its-source:{d_kind}",
+                              f"the dataset derived at step {d_step} ({d_kind}) became inconsistent after the later "
+                              f"operations {case['ops'][d_step + 1:step]} on its source: {what}",
+                              {**case, "failed_step": step, "derived_at": d_step})
+                return
         uni = ref.universe(model)
         ei = ref.expected_type_is_int(model)
         ctx.count("ops")
@@ -223,6 +234,12 @@ def check_case(case, ctx):
                 p2 = common.dataset_problems(res)
                 if report(ctx, case, step, [(s + ":unified_dataset", w) for s, w in p2], op):
                     return
+                derived.append((step, op, res, real_state(res)))
+                if rng.random() < 0.3 and len(ref.universe(want)) >= 2:
+                    # the reverse direction: mutate the derived dataset, the source must not notice
+                    call(res.remove_elements, {ck.Element(ref.universe(libx.raw_dataset(res))[0])})
+                    derived[-1] = (step, op, res, real_state(res))
+                    ctx.count("derived_dataset_mutated")
         elif op in ("sub_elements", "sub_ids"):
             keep = [e for e in uni if rng.random() < 0.5] or [uni[0]]
             want = ref.project(model, keep)
@@ -239,6 +256,7 @@ def check_case(case, ctx):
             p2 = common.dataset_problems(res)
             if report(ctx, case, step, [(s + ":projection", w) for s, w in p2], op):
                 return
+            derived.append((step, op, res, real_state(res)))
             got = real_state(res)
             wantn = model_state(model_normalise(want))
             if got != wantn:
@@ -302,6 +320,7 @@ def reach(counters, tier, info):
                             ("mutations that raise", "mutations_raising", 50 * k),
                             ("mutator following a mutator", "mutator_after_mutator", 500 * k),
                             ("derived constructors on an already-mutated dataset", "derived_after_mutation", 500 * k),
+                            ("derived datasets mutated (the source must not notice)", "derived_dataset_mutated", 60 * k),
                             ("invariant evaluations (icontract)", "invariant_evaluations", 50000 * k)]:
         v = counters.get(key, 0)
         out.append({"name": name, "observed": v, "required": need, "ok": v >= need})
